@@ -50,7 +50,10 @@ class Heap:
         self.exc = z3.Array(c.fresh_name("exc0"), z3.IntSort(), z3.IntSort())
         self.ival = z3.Array(c.fresh_name("ival0"), z3.IntSort(), z3.IntSort())
         self.st0, self.val0, self.exc0, self.ival0 = self.st, self.val, self.exc, self.ival
-        self.unroll = getattr(c, "unroll", False)
+        # ground typing (one instance per future the unit creates) instead of the universal axiom: units whose
+        # futures are all named individually ask for it (c.ground_heap) so that *satisfiable* queries - refutations -
+        # are decided instead of coming back `unknown` from quantifier instantiation
+        self.unroll = getattr(c, "unroll", False) or getattr(c, "ground_heap", False)
         if not self.unroll:
             i = z3.Int("hid")
             sel = z3.Select(self.st0, i)
